@@ -556,7 +556,13 @@ class Machine(object):
         op = a1 >> 24
         if op == 6:                                     # start
             self.fill = dict(pid=(a1 >> 16) & 0xff, n=(a1 >> 8) & 0xff,
-                             blocks={}, sel=[], order=["ffs"], dup_blocks=0)
+                             blocks={}, sel=[], order=["ffs"], dup_blocks=0,
+                             fwd=0x3f)
+        if self.fill is not None:
+            # links each chip passes the packet on through (forward mask)
+            self.fill["fwd"] &= (a3 >> 8) & 0x3f
+        if op == 6:
+            pass
         elif self.fill is None:
             self.perr("flood-fill packet %d outside a fill" % op)
         elif op == 7:                                   # core select
@@ -577,6 +583,7 @@ class Machine(object):
             return OK, (), b""
         block, size, pid = (a2 >> 16) & 0xff, (a2 >> 8) & 0xff, a1 & 0xff
         f = self.fill
+        f["fwd"] &= (a1 >> 24) & 0x3f
         if pid != f["pid"]:
             self.perr("data block with id %d inside fill %d" % (pid, f["pid"]))
         if len(payload) > self.buffer_size:
@@ -612,6 +619,21 @@ class Machine(object):
             miss = set(self.chips)
             f["ignored_as_duplicate"] = True
         self.last_fill_id = f["pid"]
+        if f["fwd"] != 0x3f:
+            # a fill not forwarded over every link floods only what can be
+            # reached from the root through the links it IS forwarded over
+            vec = [(1, 0), (1, 1), (0, 1), (-1, 0), (-1, -1), (0, -1)]
+            seen, todo = {self.root}, [self.root]
+            while todo:
+                x, y = todo.pop()
+                for l in range(6):
+                    if f["fwd"] >> l & 1 and l in self.chips[(x, y)].links:
+                        n = ((x + vec[l][0]) % self.w, (y + vec[l][1]) % self.h)
+                        if n in self.chips and n not in seen:
+                            seen.add(n)
+                            todo.append(n)
+            miss = set(miss) | (set(self.chips) - seen)
+            f["not_flooded"] = sorted(set(self.chips) - seen)
         f["missed_by"] = set(miss)
         if not complete:
             return
